@@ -171,8 +171,11 @@ def make_state(case, contracts=()):
     return RecWindowState(st_[1], st_[2], st_[3])
 
 
-def make_reward(spec):
+def make_reward(spec, by_name=False):
     kind = spec[0]
+    if by_name and kind in ("simple", "log", "pnl"):
+        # the documented shortcut: the reward given as the name of a class of tradingenv.rewards
+        return {"simple": "RewardSimpleReturn", "log": "RewardLogReturn", "pnl": "RewardPnL"}[kind]
     if kind == "simple":
         return RW.RewardSimpleReturn()
     if kind == "log":
@@ -381,7 +384,7 @@ def make_env_from(b):
         env = TradingEnv(action_space=make_space(b), transmitter=tr, initial_cash=case.get("deposit", 1000.0),
                          latency=b.latency, steps_delay=case.get("delay", 0), episode_length=case.get("episode_length"))
         return env
-    env = TradingEnv(action_space=make_space(b), state=make_state(case, b.contracts), reward=make_reward(case.get("reward", ["simple"])),
+    env = TradingEnv(action_space=make_space(b), state=make_state(case, b.contracts), reward=make_reward(case.get("reward", ["simple"]), case.get("reward_by_name")),
                      transmitter=tr, initial_cash=case.get("deposit", 1000.0), broker_fees=fees,
                      latency=b.latency, steps_delay=case.get("delay", 0),
                      episode_length=case.get("episode_length"), sampling_span=case.get("sampling_span"),
@@ -646,7 +649,8 @@ def episode_cases(draw, tier="quick", max_points=10, kinds=None, max_contracts=3
             # (pandas timestamps only with whole-second latencies: pandas.Timedelta.total_seconds() is not the correctly
             #  rounded quotient, so an event exactly at t+latency could fall on either side of the float comparison)
             "time_type": draw(st.sampled_from(["datetime", "datetime", "timestamp"])) if lat % US == 0 else "datetime",
-            "action_type": draw(st.sampled_from(["array64", "array64", "list", "tuple", "array32"]))}
+            "action_type": draw(st.sampled_from(["array64", "array64", "list", "tuple", "array32"])),
+            "reward_by_name": draw(st.sampled_from([False, False, True]))}
 
 
 # ------------------------------------------------------------------------------------- futures chains
